@@ -40,6 +40,11 @@ Theorem C07_zero_is_default : forall A (s : src (list A)), fetch_list 0 s = fetc
 Proof. exact @l_zero_default. Qed.
 Print Assumptions C07_zero_is_default.
 
+(** ... and that constant is the 4 MB of the statement *)
+Theorem C07_default_is_4MB : default_max_payload = 4 * 1024 * 1024.
+Proof. exact default_is_spec. Qed.
+Print Assumptions C07_default_is_4MB.
+
 (** the lower-level value (path, pool) wins unless it is 0; the exchange depends on the four
     settings only through the two effective limits *)
 Theorem C07_effective_limit_precedence : forall A,
